@@ -104,3 +104,25 @@ package outbox
 //@ effect[C07:conditional-write-judged-after-queued-writes] every os.innerStorage.$M(_, storage.BucketName($b), storage.ObjectKey($k), __) if $M == "PutObject" || $M == "CompleteMultipartUpload" || $M == "DeleteObject" || $M == "AppendObject"
 //@     needs before os.waitForAllOutboxEntriesOfBucketAndKeyIncludingGlobal(_, $wb, $wk) -> ($e)
 //@     where $e == nil && $wb == $b && $wk == $k
+
+// Waiting for queued writes. waitUntilOutboxEntriesDrained takes its snapshot - the newest matching entry at the time
+// of the call - with its first finder and polls the oldest matching entry with its second finder until that one is
+// newer than the snapshot or nothing is left; the four scopes hand it the newest-entry finder first and the
+// oldest-entry finder second.
+//@ func (*outboxStorage).waitUntilOutboxEntriesDrained
+//@ mode effects
+//@ requires !same(findLast, findFirst)
+//@ effect[C21:snapshot-taken-once-before-polling] every findLast(_, _) forbids before findFirst(_, _)
+//@ effect[C21:keeps-polling-while-an-older-entry-is-queued] every loop_continues()
+//@     needs before findFirst(_, _) -> ($e, $err)
+//@     needs before ulid.ULID.Compare(_) -> ($c)
+//@     where $err == nil && $e != nil && $c <= 0
+//@ effect[C21:polls-after-the-snapshot] every findFirst(_, _) needs before findLast(_, _) -> ($l, $lerr) where $lerr == nil && $l != nil
+
+//@ funcs having tx *sql.Tx matching ^\(\*outboxStorage\)\.waitFor[A-Za-z]*\$1$
+//@ mode effects
+//@ effect[C21:first-finder-is-the-newest-entry] every os.storageOutboxEntryRepository.$M(__) where strings.HasPrefix($M, "FindLast")
+
+//@ funcs having tx *sql.Tx matching ^\(\*outboxStorage\)\.waitFor[A-Za-z]*\$2$
+//@ mode effects
+//@ effect[C21:second-finder-is-the-oldest-entry] every os.storageOutboxEntryRepository.$M(__) where strings.HasPrefix($M, "FindFirst")
